@@ -185,6 +185,7 @@ def jobs(tier):
         js.append(('place', s, b['blocks'], b['defs']))
     for i in range(len(DEF_LABELS)):
         js.append(('lattice', i, b['lattice_defs']))
+    js.append(('long',))
     return js
 
 
@@ -201,8 +202,49 @@ def run_case(r, blocks, use_labels, case_extra):
     return md
 
 
+def run_long(r):
+    """labels of up to 999 characters (the longest the specification admits), colliding after whitespace collapsing with a short
+    label defined later; titles that end in an escaped backslash in all three quoting styles"""
+    for n in (1, 2, 99, 100, 255, 256, 997, 998, 999):
+        for long_label, short in (('l' * n, None), (('a' + ' ' * (n - 2) + 'b') if n >= 3 else None, 'A B')):
+            if long_label is None:
+                continue
+            for where in ('before', 'after'):
+                uses = [long_label] + ([short] if short else [])
+                use = use_text(uses)
+                d1 = '[%s]: /d1 "T1"' % long_label
+                d2 = '[%s]: /d2 "T2"' % short if short else None
+                defs_md = d1 + ('\n\n' + d2 if d2 else '')
+                md = (defs_md + '\n\n' + use + '\n') if where == 'before' else (use + '\n\n' + defs_md + '\n')
+                defs = [(long_label, '/d1', 'T1')] + ([(short, '/d2', 'T2')] if short else [])
+                r.states += 1
+                r.transitions += 1
+                r.validated += 1
+                f = evaluate(md, uses, 1, defs)
+                if f:
+                    r.fail(dict(markdown=md, use_labels=uses, use_blocks=1, defs=defs), f['sig'], f.get('detail', ''), expected=f.get('expected'), observed=f.get('observed'))
+                r.outcome('long-label')
+    for q1, q2 in (('"', '"'), ("'", "'"), ('(', ')')):
+        for title_src, title in (('T\\\\', 'T\\'), ('C:\\\\t\\\\', 'C:\\t\\'), ('a\\' + q2 + 'b', 'a' + q2 + 'b'), ('\\\\', '\\'), ('x\\\\\\' + q2, 'x\\' + q2)):
+            for sep in (' ', '\n  '):
+                for dup in (False, True):
+                    md = '[foo]: /d1%s%s%s%s\n' % (sep, q1, title_src, q2) + ('\n[FOO]: /d2 "T2"\n' if dup else '') + '\n' + use_text(['foo']) + '\n'
+                    defs = [('foo', '/d1', title)] + ([('FOO', '/d2', 'T2')] if dup else [])
+                    r.states += 1
+                    r.transitions += 1
+                    r.validated += 1
+                    f = evaluate(md, ['foo'], 1, defs)
+                    if f:
+                        r.fail(dict(markdown=md, use_labels=['foo'], use_blocks=1, defs=defs), f['sig'], f.get('detail', ''), expected=f.get('expected'), observed=f.get('observed'))
+                    r.outcome('title-backslash')
+    r.sample(dict(space='long labels and titles ending in an escaped backslash'), 1)
+    return r
+
+
 def run_job(job):
     r = core.Result()
+    if job[0] == 'long':
+        return run_long(r)
     if job[0] == 'place':
         _, si, nblocks, ndefs = job
         use_labels = ['foo', 'bar']
